@@ -231,6 +231,18 @@ func judge(rStored []storedChange, rBy map[string]storedChange, qBy map[string]s
 				add("announced-head-not-yet-sent", "batch %d announces head %s which is neither sent by then nor held by the requester", bi, h)
 			}
 		}
+		// heads are maximal: no announced head is a strict ancestor of another announced head of the same batch
+		for _, h := range b.heads {
+			others := []string{}
+			for _, o := range b.heads {
+				if o != h {
+					others = append(others, rBy[o].parents...)
+				}
+			}
+			if anc(others)[h] {
+				add("announced-head-is-ancestor-of-another", "batch %d announces %v but %s is an ancestor of another announced head", bi, b.heads, h)
+			}
+		}
 		below := anc(b.heads)
 		for _, id := range b.ids {
 			if !below[id] {
